@@ -102,6 +102,12 @@ def _idx(pattern, i):
     raise KeyError(pattern)
 
 
+def _with_digits(x, digits, ref):
+    """the object with a requested (possibly lossy) pickle precision"""
+    x.set_pickle_digits(tuple(digits) if isinstance(digits, list) else digits, tuple(ref) if isinstance(ref, list) else ref)
+    return x
+
+
 UNARY = {
     'neg': lambda x: -x, 'abs': lambda x: abs(x), 'pos': lambda x: +x,
     'sqrt': lambda x: x.sqrt(), 'sqrt_nc': lambda x: x.sqrt(check=False),
@@ -154,6 +160,7 @@ UNARYP = {
     'any': lambda x, ax: x.any(axis=_ax(ax)), 'all': lambda x, ax: x.all(axis=_ax(ax)),
     'tvl_any': lambda x, ax: x.tvl_any(axis=_ax(ax)), 'tvl_all': lambda x, ax: x.tvl_all(axis=_ax(ax)),
     'rms': lambda x: x.rms(),
+    'pickle_d': lambda x, digits, ref: pickle.loads(pickle.dumps(_with_digits(x, digits, ref))),
     'inverse': lambda x: x.inverse(), 'inverse_nz': lambda x: x.inverse(nozeros=True),
     'mrecip': lambda x: x.reciprocal(), 'mrecip_nz': lambda x: x.reciprocal(nozeros=True),
     'transpose': lambda x: x.transpose(), 'unitary': lambda x: x.unitary(), 'is_diagonal': lambda x: x.is_diagonal(),
